@@ -190,6 +190,7 @@ func (p *Prog) newVC(fn *ssa.Function, sp *spec.FuncSpec) *VC {
 	vc := &VC{P: p, Fn: fn, Spec: sp, globals: map[*ssa.Global]int{}, strLits: map[string]string{}, heapDecl: map[string]bool{},
 		counts: map[string]int{}, gvals: map[*ssa.Global]Term{}, sums: map[string][]*sumInst{}, sumCache: map[string]*sumInst{}}
 	vc.tt = newTypeTab(vc)
+	knownCtor = map[string]string{}
 	return vc
 }
 
